@@ -581,6 +581,103 @@ fn setloc_case(t: &[&str]) -> String {
     }
 }
 
+// ---------------------------------------------------------------- EhHdrTableIter histories
+fn hiter_case(t: &[&str]) -> String {
+    // <be> <hasz> <hsec> <htext> <hdata> <hdrbytes> <op>*   op: n | k<num> | h
+    let en = endian(t[1]);
+    let hasz = u(t[2]) as u8;
+    let mut bases = BaseAddresses::default();
+    bases.eh_frame_hdr = sb(&t[3..6]);
+    let hbytes = hex(t[6]);
+    let hdr = EhFrameHdr::new(&hbytes, en);
+    let parsed = match hdr.parse(&bases, hasz) {
+        Ok(p) => p,
+        Err(e) => return err(&e),
+    };
+    let table = match parsed.table() {
+        Some(tb) => tb,
+        None => return "ok notable".into(),
+    };
+    // spec-level oracle on the implementation alone: the rows of a fresh full scan
+    let mut scan: Vec<(Pointer, Pointer)> = Vec::new();
+    {
+        let mut it = table.iter(&bases);
+        let cap = hbytes.len() + 2;
+        while let Ok(Some(r)) = it.next() {
+            scan.push(r);
+            if scan.len() > cap {
+                return "iter-nonterminating-mismatch".into();
+            }
+        }
+    }
+    let mut it = table.iter(&bases);
+    // where the history stands: At(i) = i rows consumed or skipped; Ended = an operation returned None
+    // (or next failed): no row may be yielded any more; Unknown = nth failed while skipping (gimli has
+    // then reduced its count without moving: no index oracle from there on)
+    #[derive(Clone, Copy, PartialEq)]
+    enum Pos {
+        At(usize),
+        Ended,
+        Unknown,
+    }
+    let mut pos = Pos::At(0);
+    let mut out = String::from("ok");
+    for op in &t[7..] {
+        if *op == "h" {
+            let a = Iterator::size_hint(&it);
+            let b = fallible_iterator::FallibleIterator::size_hint(&it);
+            if a != b {
+                return "history-mismatch size_hint of the two iterator traits differ".into();
+            }
+            // the upper bound must cover the rows a drain from here can still yield
+            if let (Some(hi), Pos::At(p)) = (a.1, pos) {
+                if p <= scan.len() && hi < scan.len() - p {
+                    return format!("history-mismatch size_hint upper bound {} below the {} rows left", hi, scan.len() - p);
+                }
+            }
+            out.push_str(&format!(" H{}:{}", a.0, a.1.map(|x| x.to_string()).unwrap_or("-".into())));
+            continue;
+        }
+        let (k, res) = if *op == "n" {
+            (0usize, it.next())
+        } else {
+            let k: u64 = op[1..].parse().unwrap();
+            (k as usize, it.nth(k as usize))
+        };
+        match res {
+            Ok(Some(r)) => {
+                match pos {
+                    Pos::At(p) => {
+                        let idx = p.saturating_add(k);
+                        if scan.get(idx) != Some(&r) {
+                            return format!("history-mismatch {} returned {}:{} as row {}", op, ptr(r.0), ptr(r.1), idx);
+                        }
+                        pos = Pos::At(idx + 1);
+                    }
+                    Pos::Ended => return format!("history-mismatch {} yielded a row after the end", op),
+                    Pos::Unknown => {}
+                }
+                out.push_str(&format!(" S{}:{}", ptr(r.0), ptr(r.1)));
+            }
+            Ok(None) => {
+                pos = Pos::Ended;
+                out.push_str(" N")
+            }
+            Err(e) => {
+                let name = errname(&e);
+                if *op == "n" {
+                    pos = Pos::Ended;
+                } else if name != "UnsupportedPointerEncoding" {
+                    // nth refuses variable-size encodings before touching the iterator
+                    pos = Pos::Unknown;
+                }
+                out.push_str(&format!(" E{}", name))
+            }
+        }
+    }
+    out
+}
+
 pub fn run(t: &[&str]) -> String {
     match t[0] {
         "c05.pe" => {
@@ -616,6 +713,7 @@ pub fn run(t: &[&str]) -> String {
         "c05.look" | "c05.lraw" => section_case(t, true),
         "c05.hdr" | "c05.hraw" => hdr_case(t),
         "c05.uwi" => uwi_case(t),
+        "c05.hiter" => hiter_case(t),
         "c05.setloc" => setloc_case(t),
         "c05.nopanic" => {
             // <class> <kind> rest...: run the named family, report only that it returned
